@@ -6,6 +6,9 @@ R2.1 the client-visible reply depends on *all* enqueue results (a scan over
 R2.2 enqueue returns only after every storage write finished
 R2.3 no reply is sent before the HAVE_DATA callback decided
 R2.4 the proxying queue inspects the relay result (per-recipient failures)
+R2.5 what is written to the store is the whole list the policy chain
+     produced: no positional update of that list with a stale index, and the
+     same list is written and paired with the ids
 """
 from __future__ import annotations
 
@@ -40,6 +43,10 @@ def run(e: Engine, rep: Report):
              'precedes the sending of the reply on every path')
     rep.rule('R2.4', 'ProxyQueue.enqueue keeps the value of relay._attempt '
              'and tests its per-recipient entries against RelayError')
+    rep.rule('R2.5', 'Queue._run_policies never updates its result list at '
+             'a position enumerated from a snapshot of it; Queue.enqueue '
+             'hands the list _run_policies returned, unmodified, both to '
+             'the store writes and to the pairing with their ids')
     rep.not_decided += ['behaviour of the storage substrate on a slow write '
                         '(R2.2 makes the reply wait for it, whatever it '
                         'does)']
@@ -48,6 +55,7 @@ def run(e: Engine, rep: Report):
     r23(e, rep)
     r24(e, rep)
     r24_kinds(e, rep)
+    r25(e, rep)
     rep.floor('R2.1', 4, 'reply decision sites')
 
 
@@ -465,3 +473,64 @@ def r24_kinds(e: Engine, rep: Report):
                       'mapping' if kind == 'Dict' else 'list'),
                   loc=ctx.func.loc(),
                   reason='RelayError test reachable with kind ' + kind)
+
+
+def r25(e: Engine, rep: Report):
+    ctx = e.method_ctx(QUEUE, '_run_policies')
+    where = ctx.func.qname
+    rep.functions.add(where)
+    rep.evaluations += 1
+    sites = list(common.stale_index_sites(ctx.func.node))
+    for lp, n, L, i in sites:
+        rep.bad('R2.5', where, 'positional update `%s`'
+                % ' '.join(ast.unparse(n).split())[:50],
+                '`%s` is updated at index `%s`, which enumerates a copy of '
+                'the list taken before the loop: once an earlier update '
+                'changed the length, the index denotes another envelope - '
+                'an envelope a policy produced is overwritten and never '
+                'stored although the client is told 250' % (L, i),
+                loc=ctx.func.loc(n))
+    if not sites:
+        rep.ok('R2.5', where, 'no positional update of the result list '
+               'with a stale index', reason='updates are by identity '
+               '(remove/extend) or use a fresh index')
+    ctx = e.method_ctx(QUEUE, 'enqueue')
+    fn = ctx.func.node
+    where = ctx.func.qname
+    var = None
+    for n in walk_own(fn):
+        if isinstance(n, ast.Assign) and isinstance(n.value, ast.Call) and \
+                ast.unparse(n.value.func) == 'self._run_policies' and \
+                isinstance(n.targets[0], ast.Name):
+            var = n.targets[0].id
+    rep.evaluations += 1
+    if var is None:
+        rep.error('anchor vanished: result of _run_policies in enqueue')
+        return
+    rebinds = [n for n in walk_own(fn) if isinstance(n, (
+        ast.Assign, ast.AugAssign)) and any(
+            isinstance(x, ast.Name) and x.id == var and
+            isinstance(x.ctx, ast.Store) for x in ast.walk(n))]
+    muts = [n for n in walk_own(fn) if isinstance(n, ast.Call) and
+            isinstance(n.func, ast.Attribute) and
+            ast.unparse(n.func.value) == var and n.func.attr in (
+                'pop', 'remove', 'clear', 'insert', 'append', 'extend',
+                'sort', 'reverse')]
+    writes = [n for n in walk_own(fn) if isinstance(n, ast.Call) and
+              ast.unparse(n.func).endswith('_pool_imap') and any(
+                  ast.unparse(a).endswith('store.write') for a in n.args)]
+    zips = [n for n in walk_own(fn) if isinstance(n, ast.Call) and
+            ast.unparse(n.func) == 'zip']
+    ok = len(rebinds) == 1 and not muts and writes and all(
+        any(isinstance(a, ast.Name) and a.id == var for a in w.args)
+        for w in writes) and zips and all(
+        isinstance(z.args[0], ast.Name) and z.args[0].id == var
+        for z in zips if z.args)
+    rep.check(bool(ok), 'R2.5', where,
+              'the list from _run_policies is what is written and paired',
+              'enqueue does not hand the unmodified list `%s` returned by '
+              '_run_policies to both the store writes and the pairing with '
+              'the ids: an envelope is dropped or paired with the result '
+              'of another one' % var, loc=ctx.func.loc(),
+              reason='single binding, no mutation, passed to _pool_imap('
+              'store.write) and zip()')
